@@ -10,6 +10,7 @@ import (
 	"fmt"
 	"os"
 	"path/filepath"
+	"sort"
 	"strings"
 
 	"github.com/specterops/dawgs/retriever"
@@ -45,7 +46,7 @@ func (e *env) skip(a artefact) bool {
 		return false
 	}
 	o := e.only
-	return !(o.Codec == a.Codec && o.Target == kindName[a.kind] && o.Family == a.Family && o.Detail == a.Detail && o.File == a.File && o.Pos == a.Pos && o.Val == a.Val && o.Metrics == a.metrics)
+	return !(o.Codec == a.Codec && o.Target == kindName[a.kind] && o.Family == a.Family && o.Detail == a.Detail && o.File == a.File && o.Pos == a.Pos && (o.Val == a.Val || strings.Contains(a.Family, "substitute")) && o.Metrics == a.metrics)
 }
 
 var canaries = map[string]string{
@@ -221,6 +222,7 @@ type artefact struct {
 	Note     string `json:"note,omitempty"`
 	Metrics  bool   `json:"verify_metrics,omitempty"`
 	kind     kind
+	valid    bool // the input is a legitimately produced archive (e.g. a harmless key-file edit): acceptance is expected
 	identity hpke.PrivateKey
 	metrics  bool
 }
@@ -269,10 +271,18 @@ func (e *env) judge(p *pristine, a artefact, o obs) {
 		if o.err != nil {
 			e.run.Add("rejected", 1)
 			if len(o.dbLog) > 0 { // (i) no partial effects
-				e.report("load-error-after-writes:"+t, a, fmt.Sprintf("%s, after %d write calls to the target database (first: %+v)", short(o.err), len(o.dbLog), o.dbLog[0]))
+				class := "load-error-after-writes:" + t
+				if a.metrics {
+					class += ":verify-metrics"
+				}
+				e.report(class, a, fmt.Sprintf("%s, after %d write calls to the target database (first: %+v)", short(o.err), len(o.dbLog), o.dbLog[0]))
 			}
 		} else {
 			e.run.Add("accepted_with_identical_result", 1)
+			e.run.Add("accepted:"+t, 1)
+			if a.kind == loadArchive && !a.valid {
+				e.report("modified-encrypted-archive-accepted:"+t, a, "the edited archive was loaded without error")
+			}
 			if why := sameDatabase(p.refDB, o.db); why != "" { // (iii) integrity
 				a.Note = why
 				e.run.Add("accepted_with_identical_result", -1)
@@ -288,13 +298,18 @@ func (e *env) judge(p *pristine, a artefact, o obs) {
 					e.report("unpack-error-damages-existing-output:"+t, a, fmt.Sprintf("%s, and the pre-existing output directory changed: %s", short(o.err), d))
 				}
 			} else if len(after) > 1 || (len(after) == 1 && !after["."].Dir) {
-				e.report("unpack-error-leaves-partial-output:"+t, a, fmt.Sprintf("%s, and the output directory holds %v", short(o.err), after.Files()))
+				e.report("unpack-error-leaves-partial-output:"+t, a, fmt.Sprintf("%s, and the output directory holds %v", short(o.err), entriesOf(after)))
 			}
 		} else {
 			d := p.tree.Diff(after)
 			switch {
 			case d == "":
 				e.run.Add("accepted_with_identical_result", 1)
+				e.run.Add("accepted:"+t, 1)
+				if a.kind != unpackTar && !a.valid {
+					// every byte of an encrypted archive is under the AEAD or part of the framing: no edit may pass
+					e.report("modified-encrypted-archive-accepted:"+t, a, "the edited archive was unpacked without error (result identical to the pristine dump)")
+				}
 			case a.kind == unpackTar && onlyManifestDiffers(p.tree, after):
 				// Nothing authenticates the manifest of a plain TAR beyond its own consistency and the fragment digests it carries,
 				// so no unpacker can notice an edit of e.g. its whitespace, driver or generated_at. The strongest requirement such a
@@ -316,6 +331,21 @@ func (e *env) judge(p *pristine, a artefact, o obs) {
 			}
 		}
 	}
+}
+
+func entriesOf(t rtk.Tree) []string {
+	var out []string
+	for p, e := range t {
+		if p == "." {
+			continue
+		}
+		if e.Dir {
+			p += "/"
+		}
+		out = append(out, p)
+	}
+	sort.Strings(out)
+	return out
 }
 
 func onlyManifestDiffers(want, got rtk.Tree) bool {
@@ -380,8 +410,18 @@ func (e *env) rebuild(p *pristine) {
 
 // Mutation families ----------------------------------------------------------------------------------------------------------
 
+// replayValue: key material differs between runs, so a replay applies the recorded value at the recorded position (or, when
+// the fresh byte happens to equal it, its neighbour) instead of re-deriving the substitution set.
+var replayValue = -1
+
 func subsValues(tier core.Tier, orig byte) []byte {
 	var out []byte
+	if replayValue >= 0 {
+		if byte(replayValue) == orig {
+			return []byte{orig ^ 0x01}
+		}
+		return []byte{byte(replayValue)}
+	}
 	if tier == core.Thorough {
 		for v := 0; v < 256; v++ {
 			if byte(v) != orig {
